@@ -142,6 +142,23 @@ theorem rt_vecvec_u128 (ll : List (List Nat)) (hl : ll.length < 2 ^ 64)
     fun l r hp => rt_vec_on rton_u128 (by intro a; rw [encU128_length]; omega) l hp.1 hp.2 r
   exact rt_vec_on hel (by intro l; unfold encVec; rw [List.length_append, encU64_length]; omega) ll hl hin r
 
+theorem rton_opt {α} {P : α → Prop} {e : α → Bytes} {d : Dec α} (h : RTOn P e d) :
+    RTOn (fun o : Option α => ∀ a, o = some a → P a) (encOpt e) (decOpt d) := by
+  intro o r ho
+  cases o with
+  | none => simp [encOpt, decOpt]
+  | some a => simp [encOpt, decOpt, h a r (ho a rfl)]
+
+/-- the `masked inputs` message `Vec<Option<bool>>`. -/
+theorem rt_masked_msg (l : List (Option Bool)) (hl : l.length < 2 ^ 64) (r : Bytes) :
+    decVec (decOpt decBool) (encVec (encOpt encBool) l ++ r) = .ok (l, r) :=
+  rt_vec (rt_opt rt_bool) (by intro a; cases a <;> simp [encOpt]) l hl r
+
+/-- the `input labels` message `Vec<Option<u128>>`. -/
+theorem rt_labels_msg (l : List (Option Nat)) (hl : l.length < 2 ^ 64) (hm : ∀ m, some m ∈ l → m < 2 ^ 128) (r : Bytes) :
+    decVec (decOpt decU128) (encVec (encOpt encU128) l ++ r) = .ok (l, r) :=
+  rt_vec_on (rton_opt rton_u128) (by intro a; cases a <;> simp [encOpt]) l hl (fun o ho a h => hm a (h ▸ ho)) r
+
 /-- a codec that round-trips is prefix-free and injective: two values never share an encoding, and the bytes that follow an
     encoded value are determined too — the framing cannot be re-split by a peer into a different (value, rest) pair. -/
 theorem rt_injective {α} {e : α → Bytes} {d : Dec α} (h : RT e d) (a b : α) (r r' : Bytes)
